@@ -432,7 +432,7 @@ def _norm_blank(text: str) -> str:
 # mechanism classifiers (predicates over input structure + observation; never case lists)
 _RE_EMPTY_ATTR_SPHINX = re.compile(r"^\s*:(var|ivar|cvar)", re.MULTILINE)
 _RE_EMPTY_ITEM = re.compile(r"^\s*:", re.MULTILINE)
-ALL_FINDINGS = ["C12-empty-attr-name", "C12-annotation-compile-too-complex", "C12-numpy-parent-annotation-index",
+ALL_FINDINGS = ["C12-annotation-lone-surrogate", "C12-class-init-unresolved-alias", "C12-empty-attr-name", "C12-annotation-compile-too-complex", "C12-numpy-parent-annotation-index",
                 "C12-google-single-block-empty", "C12-google-property-summary-not-text",
                 "C12-builtin-module-parent-annotation-error", "C12-attr-named-like-unresolved-import"]
 
@@ -482,6 +482,12 @@ def classify_exception(case: dict, exc: BaseException, pkind: str, no_filepath: 
             and after_doc[0] in ("mixins.py", "models.py") and alias_names
             and re.search(r"(?<![\w.])(" + "|".join(re.escape(a) for a in sorted(alias_names)) + r")(?![\w])", text)):
         return "C12-attr-named-like-unresolved-import"
+    if (isinstance(exc, UnicodeEncodeError) and frames[-1][1] == "parse_docstring_annotation"  # raised by its compile() call
+            and re.search("[\ud800-\udfff]", text)):
+        return "C12-annotation-lone-surrogate"
+    if (type(exc).__name__ in ("AliasResolutionError", "CyclicAliasError") and pkind == "class" and "parameters" in funcs
+            and "__init__" in alias_names and after_doc[0] == "models.py" and after_doc[1] == "parameters"):
+        return "C12-class-init-unresolved-alias"
     if (type(exc).__name__ == "BuiltinModuleError" and no_filepath and "safe_get_expression" in funcs
             and "parse_docstring_annotation" in funcs
             and any(f[1] == "safe_get_expression" and g[1] == "relative_filepath" for f, g in zip(frames, frames[1:]))):
